@@ -307,15 +307,16 @@ def doIneq (p : Probe) : List String :=
       | .unit sr col c rh => .unit sr col (absF c) rh
     let scale := absRow.lhs z (q.x.map absF) + absF r.rhs
     (absF (rs - (r.rhs - lhs)), scale, r.kind, rs)
-  -- cl1's accuracy differs by section (measured): inequality rows are exact to 1e-14, equality rows to 1e-9 absolute,
-  -- optimisation rows of ill-conditioned crafted states can be off by 1e-3; the latter are judged as a fraction per case
+  -- cl1's accuracy differs by section (measured): the residuals of the one-entry inequality rows are exact to 1e-14; those of
+  -- the dense (optimisation and equality) rows can be off by 1e-7 absolute on the ill-conditioned crafted states and are
+  -- therefore judged as a fraction per probe case (`ineq-opt-rows`)
   let tolOf (k : Nat) (scale : Float) : Float := if k == 2 then 1e-9 * scale + 1e-12 else 1e-6 * scale + 1e-8
-  let hard := evals.filter fun e => e.2.2.1 != 0
+  let hard := evals.filter fun e => e.2.2.1 == 2
   let worst := hard.foldl (fun acc e => if acc.1 - tolOf acc.2.2.1 acc.2.1 < e.1 - tolOf e.2.2.1 e.2.1 then e else acc) (0.0, 0.0, 2, 0.0)
   let rowsOk := hard.all fun e => e.1 ≤ tolOf e.2.2.1 e.2.1
   let feasOk := hard.all fun e => if e.2.2.1 == 2 then e.2.2.2 ≥ -(tolOf 2 e.2.1) else absF e.2.2.2 ≤ tolOf 1 e.2.1
   let signOk := (signs.zip q.x).all fun (sg, xv) => !(sg < 0.0) || xv ≤ 1e-12
-  let opt := evals.filter fun e => e.2.2.1 == 0
+  let opt := evals.filter fun e => e.2.2.1 != 2
   let optTight := (opt.filter fun e => e.1 ≤ 1e-5 * e.2.1 + 1e-10).length
   base ++ [pl "ineq-rows" hard.length rowsOk worst.1 worst.2.1, -- informational (always ok): cl1 may return kode 0 with a vector that violates its own inequality rows / sign
            -- restrictions; `reset()` is what protects the amounts then (see `restrictions_respected`)
